@@ -195,3 +195,26 @@ func VP_C18_Canonical() {
 	vpAssert(ok, "the items seen are the leading items of an uninterrupted run")
 	vpReach("end")
 }
+
+// VP_C12_StringBytes: for every byte string of n bytes over all 256 values
+// (so also well-formed multi-byte UTF-8), ReverseComplementString panics iff
+// some byte is outside aAcCgGtTnN - exactly when ReverseComplement does - and
+// otherwise returns the same bytes.
+func VP_C12_StringBytes() {
+	n := vpCase("n")
+	s := vpBytes("s", n)
+	allOK := true
+	for _, b := range s {
+		allOK = allOK && vpIsDNA10(b)
+	}
+	var r1 []byte
+	var r2 string
+	p1 := vpPanics(func() { r1 = ReverseComplement(nil, s) })
+	p2 := vpPanics(func() { r2 = ReverseComplementString(string(s)) })
+	vpAssert(p1 == !allOK, "ReverseComplement panics iff some byte is outside aAcCgGtTnN")
+	vpAssert(p2 == !allOK, "ReverseComplementString panics iff some byte is outside aAcCgGtTnN")
+	if !p1 && !p2 {
+		vpAssert(string(r1) == r2, "ReverseComplementString agrees with ReverseComplement")
+	}
+	vpReach("end")
+}
